@@ -10,6 +10,7 @@ import (
 	"context"
 	"encoding/json"
 	"fmt"
+	"math"
 	"os"
 	"runtime"
 	"strconv"
@@ -75,7 +76,7 @@ func desync(msg string) {
 }
 
 func pop(kind, name string) apiEvent {
-	for pos < len(cur.API) && (strings.HasPrefix(cur.API[pos].Kind, "env-") || (cur.API[pos].Kind == "clock0" && kind != "clock0")) {
+	for pos < len(cur.API) && (strings.HasPrefix(cur.API[pos].Kind, "env-") || cur.API[pos].Kind == "lazy" || (cur.API[pos].Kind == "clock0" && kind != "clock0")) {
 		if cur.API[pos].Kind == "clock0" {
 			// the clock origin was drawn by target code reading the clock before the harness did: keep it
 			if v, err := strconv.ParseUint(cur.API[pos].Val, 10, 64); err == nil {
@@ -479,3 +480,109 @@ func RepoRoot() string {
 	}
 	return "."
 }
+
+// LazyJSON is a JSON object whose content is decided only when the code under test looks at it
+// (engine: key present / absent / null on lookup, "is of type T / is not" on each type assertion).
+// Natively the object is rebuilt up front from the decisions recorded on the path.
+func LazyJSON(name string) map[string]interface{} {
+	type node struct {
+		kind     string // "", null, string, number, bool, object, array0, array1
+		not      map[string]bool
+		children map[string]*node
+		order    []string
+		elem     *node
+	}
+	nodes := map[string]*node{}
+	get := func(path string) *node {
+		n := nodes[path]
+		if n == nil {
+			n = &node{not: map[string]bool{}, children: map[string]*node{}}
+			nodes[path] = n
+		}
+		return n
+	}
+	root := get(name)
+	root.kind = "object"
+	for _, ev := range cur.API {
+		if ev.Kind != "lazy" || !(strings.HasPrefix(ev.Name, name+".") || strings.HasPrefix(ev.Name, name+"[")) {
+			continue
+		}
+		n := get(ev.Name)
+		switch {
+		case ev.Val == "absent":
+			delete(nodes, ev.Name)
+			continue
+		case ev.Val == "null":
+			n.kind = "null"
+		case ev.Val == "present":
+		case strings.HasPrefix(ev.Val, "is:"):
+			n.kind = ev.Val[3:]
+		case strings.HasPrefix(ev.Val, "not:"):
+			n.not[ev.Val[4:]] = true
+		}
+		// link to the parent
+		if strings.HasSuffix(ev.Name, "[0]") {
+			get(strings.TrimSuffix(ev.Name, "[0]")).elem = n
+		} else if i := strings.LastIndex(ev.Name, "."); i >= 0 {
+			p := get(ev.Name[:i])
+			key := ev.Name[i+1:]
+			if p.children[key] == nil {
+				p.order = append(p.order, key)
+			}
+			p.children[key] = n
+		}
+	}
+	var build func(n *node) interface{}
+	build = func(n *node) interface{} {
+		kind := n.kind
+		if kind == "" { // present but never successfully asserted: any kind not excluded
+			for _, k := range []string{"string", "number", "bool", "object", "array"} {
+				if !n.not[k] {
+					kind = k
+					break
+				}
+			}
+			if kind == "array" {
+				kind = "array0"
+			}
+		}
+		switch kind {
+		case "string":
+			return "x"
+		case "number":
+			return float64(1)
+		case "bool":
+			return true
+		case "object":
+			m := map[string]interface{}{}
+			for _, k := range n.order {
+				if c := n.children[k]; c != nil && nodes[pathOf(nodes, c)] != nil {
+					m[k] = build(c)
+				}
+			}
+			return m
+		case "array0":
+			return []interface{}{}
+		case "array1":
+			if n.elem != nil {
+				return []interface{}{build(n.elem)}
+			}
+			return []interface{}{"x"}
+		}
+		return nil
+	}
+	m, _ := build(root).(map[string]interface{})
+	return m
+}
+
+func pathOf[T comparable](m map[string]T, v T) string {
+	for k, x := range m {
+		if x == v {
+			return k
+		}
+	}
+	return ""
+}
+
+// Float64 is an arbitrary IEEE-754 double (every bit pattern, including NaNs and infinities).
+func Float64(name string) float64 { return math.Float64frombits(popU("f64", name)) }
